@@ -104,6 +104,73 @@ Proof.
     split; [reflexivity|]. split; [apply perm_skip, perm_swap | exact OB].
 Qed.
 
+(* ------------------------------------------------------------------ extract_boundary_of_volume (after 832f457) *)
+Lemma ex_face_order_id {A} (l : list A) : ex_face_order l = l.
+Proof. reflexivity. Qed.
+Lemma ex_orient_guard_spec nf nc : ex_orient_guard nf nc = true <-> nf = 3 /\ 0 < nc.
+Proof. unfold ex_orient_guard. rewrite andb_true_iff, Nat.eqb_eq, Nat.ltb_lt. tauto. Qed.
+Lemma ex_flip_test_spec a b c d : ex_flip_test a b c d = negb (orient_test_Z a b c d).
+Proof. reflexivity. Qed.
+Lemma ex_flip_def {A} (x0 x1 x2 : A) : ex_flip x0 x1 x2 = [x0; x2; x1].
+Proof. reflexivity. Qed.
+
+Lemma map_opt_three {A B} (f : A -> option B) a b c l :
+  map_opt f [a; b; c] = Some l -> exists x y z, l = [x; y; z] /\ f a = Some x /\ f b = Some y /\ f c = Some z.
+Proof.
+  cbn [map_opt]. destruct (f a) as [x|]; [|discriminate]. destruct (f b) as [y|]; [|discriminate].
+  destruct (f c) as [z|]; [|discriminate]. intros H. inversion H. now exists x, y, z.
+Qed.
+
+(* a triangle that lies in a cell comes out renumbered and outward, exactly like _BoundaryConnectivity's *)
+Theorem ex_face_outward cells faces pos f2c vs iF T :
+  ex_face cells faces pos f2c vs iF = Ok T -> length (nth iF faces []) = 3 -> F2C f2c iF <> [] ->
+  exists a b c d iC p q r,
+    nth iF faces [] = [a; b; c] /\ hd_error (F2C f2c iF) = Some iC
+    /\ hd_error (others (nth iC cells []) [a; b; c]) = Some d
+    /\ map (b2m vs) T = [Some p; Some q; Some r]
+    /\ Permutation [p; q; r] [a; b; c]
+    /\ (det_3x3 (vsub3 (pos a) (pos d)) (vsub3 (pos b) (pos d)) (vsub3 (pos c) (pos d)) <> 0%Z ->
+        outward_Z (pos p) (pos q) (pos r) (pos d) = true).
+Proof.
+  unfold ex_face. rewrite ex_face_order_id. intros H L3 NE.
+  destruct (nth iF faces []) as [|a [|b [|c [|? ?]]]] eqn:E2; try discriminate.
+  destruct (map_opt (m2b vs) [a; b; c]) as [face|] eqn:M; [|discriminate].
+  destruct (map_opt_three _ _ _ _ _ M) as [x [y [z [-> [Ma [Mb Mc]]]]]].
+  destruct (F2C f2c iF) as [|iC rest] eqn:E1; [congruence|].
+  assert (G : ex_orient_guard (length [x; y; z]) (length (iC :: rest)) = true)
+    by (apply ex_orient_guard_spec; cbn [length]; lia).
+  rewrite G in H.
+  destruct (others (nth iC cells []) [a; b; c]) as [|d rest'] eqn:E3; [discriminate|].
+  apply m2b_b2m in Ma, Mb, Mc. inversion H; subst T; clear H.
+  pose proof (orient_branch_outward (pos a) (pos b) (pos c) (pos d)) as OB.
+  rewrite ex_flip_test_spec. destruct (orient_test_Z (pos a) (pos b) (pos c) (pos d)); cbn [negb].
+  - exists a, b, c, d, iC, a, b, c. cbn [map]. rewrite Ma, Mb, Mc.
+    split; [reflexivity|]. split; [reflexivity|]. split; [now rewrite E3|].
+    split; [reflexivity|]. split; [reflexivity|exact OB].
+  - exists a, b, c, d, iC, a, c, b. rewrite ex_flip_def. cbn [map]. rewrite Ma, Mb, Mc.
+    split; [reflexivity|]. split; [reflexivity|]. split; [now rewrite E3|].
+    split; [reflexivity|]. split; [apply perm_skip, perm_swap | exact OB].
+Qed.
+
+(* the two extractors emit the same triangle for the same enumeration of the border vertices *)
+Theorem extractors_agree cells faces pos f2c vs iF :
+  length (nth iF faces []) = 3 -> F2C f2c iF <> [] ->
+  ex_face cells faces pos f2c vs iF = bc_face cells faces pos f2c vs iF.
+Proof.
+  intros L3 NE. unfold ex_face, bc_face. rewrite ex_face_order_id.
+  destruct (nth iF faces []) as [|a [|b [|c [|? ?]]]] eqn:E2; try discriminate.
+  destruct (F2C f2c iF) as [|iC rest] eqn:E1; [congruence|].
+  cbn [map_opt].
+  destruct (m2b vs a) as [x|]; [|destruct (others (nth iC cells []) [a; b; c]); reflexivity].
+  destruct (m2b vs b) as [y|]; [|destruct (others (nth iC cells []) [a; b; c]); reflexivity].
+  destruct (m2b vs c) as [z|]; [|destruct (others (nth iC cells []) [a; b; c]); reflexivity].
+  assert (G : ex_orient_guard (length [x; y; z]) (length (iC :: rest)) = true)
+    by (apply ex_orient_guard_spec; cbn [length]; lia).
+  rewrite G. destruct (others (nth iC cells []) [a; b; c]) as [|d r']; [reflexivity|].
+  rewrite ex_flip_test_spec, ex_flip_def, orient_then_def, orient_else_def.
+  destruct (orient_test_Z (pos a) (pos b) (pos c) (pos d)); reflexivity.
+Qed.
+
 (* ------------------------------------------------------------------ the convention order (standalone extractor) *)
 Local Open Scope Z_scope.
 (* a cell (A,B,C,D) is positive in mouette's own determinant det(pA-pD, pB-pD, pC-pD) (attr_cells.cell_volume) *)
